@@ -35,22 +35,25 @@ Removes(f) ==
       [] f = "no-default-ignore" -> {"builtin"}
       [] OTHER -> {}
 
-VARIABLES given, eff, opt, done
+\* wf: one of the probe files (the one the project's VCS ignore file names) is also given as a watched
+\* FILE (-w FILE): an explicitly watched file is let through whatever ignores and filters say, and that
+\* too must not depend on the flags
+VARIABLES given, eff, opt, wf, done
 
-Init == given \in SUBSET Flags /\ eff = given /\ opt \in Options /\ done = FALSE
+Init == given \in SUBSET Flags /\ eff = given /\ opt \in Options /\ wf \in BOOLEAN /\ done = FALSE
 
 \* one round of shorthand expansion
 Normalise ==
     /\ ~done
     /\ \E f \in eff : ~(Implies(f) \subseteq eff)
     /\ eff' = eff \cup UNION {Implies(f) : f \in eff}
-    /\ UNCHANGED <<given, opt, done>>
+    /\ UNCHANGED <<given, opt, wf, done>>
 
 Finish ==
     /\ ~done
     /\ \A f \in eff : Implies(f) \subseteq eff
     /\ done' = TRUE
-    /\ UNCHANGED <<given, eff, opt>>
+    /\ UNCHANGED <<given, eff, opt, wf>>
 
 Next == Normalise \/ Finish
 
@@ -60,8 +63,9 @@ Active(src) == ~\E f \in eff : src \in Removes(f)
 SourceProbe(src) == "by_" \o src
 \* verdict of the probe event: TRUE = passes the filter
 PassSource(src) ==
-    CASE opt \in {"filter", "filter-file", "exts"} -> FALSE      \* does not match the filter
-      [] OTHER -> ~Active(src)
+    IF wf /\ src = "vcs_project" THEN TRUE                       \* the explicitly watched file
+    ELSE CASE opt \in {"filter", "filter-file", "exts"} -> FALSE      \* does not match the filter
+           [] OTHER -> ~Active(src)
 
 Expect ==
     [sources |-> [s \in Sources |-> PassSource(s)],
@@ -91,5 +95,5 @@ ShorthandMeaning ==
         /\ (given \subseteq {"no-default-ignore"}) => \A s \in Sources \ {"builtin"} : Active(s)
 
 Emit ==
-    done => PrintT(<<"CASE", ToJson([flags |-> given, opt |-> opt, expect |-> Expect])>>)
+    done => PrintT(<<"CASE", ToJson([flags |-> given, opt |-> opt, watchfile |-> wf, expect |-> Expect])>>)
 =============================================================================
